@@ -1060,73 +1060,271 @@ func runR90(c *Ctx) {
 	}
 }
 
-// ---- R91: incrementing SQL placeholders count from 1 ----
+// ---- R91: the text of the INSERT statement ----
 
 func init() {
-	register(&Rule{ID: "R91", Name: "SQL-PLACEHOLDER", Floor: 1,
-		Text: "in the INSERT builder (internal/io/sql.Insert) the number formatted into an incrementing placeholder is the zero-based key of the loop over the column names plus the constant 1 ($1..$n), and the other branch writes the constant `?`",
+	register(&Rule{ID: "R91", Name: "SQL-SKELETON", Floor: 12,
+		Text: "the INSERT builder (internal/io/sql.Insert) is evaluated (E5) for 1..3 column names in the four worlds of (an escape character is configured, incrementing placeholders), with strings abstracted to token lists (constants; T = the table name, N<j> = column name j, Q = the escape character): writes to a bytes.Buffer / strings.Builder, string concatenation, fmt.Sprintf with %d, strconv.Itoa, the helpers and the counted loops are interpreted. The returned text must be exactly `INSERT INTO ` [Q]T[Q] ` (` [Q]N0[Q] (`,` [Q]Nj[Q])* `) VALUES (` m1 (`,` mj)* `);` with mj = `?`, or `$j` counting from 1 when incrementing: every column named once in order, identifiers wrapped on both sides or not at all, one marker per column",
 		Run:  runR91})
 }
 
 func runR91(c *Ctx) {
 	p := c.P
 	fn := p.Func("internal/io/sql", "Insert")
-	if fn == nil {
+	if fn == nil || len(fn.Params) != 2 {
 		c.undecided("internal/io/sql.Insert", "-", "not found")
 		return
 	}
-	n := 0
-	eachInstr(fn, func(in ssa.Instruction) {
-		call, ok := in.(*ssa.Call)
-		if !ok || !isFuncNamed(calleeObj(call), "fmt", "", "Sprintf") || len(call.Call.Args) < 2 {
-			return
-		}
-		fmtStr, ok := constString(call.Call.Args[0])
-		if !ok || !strings.Contains(fmtStr, "%d") {
-			return
-		}
-		n++
-		key := fname(fn) + "|placeholder number"
-		// the variadic argument: a []interface{} with one element
-		var val ssa.Value
-		if sl, ok := call.Call.Args[1].(*ssa.Slice); ok {
-			if al, ok := sl.X.(*ssa.Alloc); ok {
-				for _, r := range *al.Referrers() {
-					if ia, ok := r.(*ssa.IndexAddr); ok {
-						for _, r2 := range *ia.Referrers() {
-							if st, ok := r2.(*ssa.Store); ok {
-								val = st.Val
-							}
+	namesP := fn.Params[0]
+	for n := 1; n <= 3; n++ {
+		for w := 0; w < 4; w++ {
+			esc, incr := w&1 != 0, w&2 != 0
+			key := fmt.Sprintf("internal/io/sql.Insert|statement columns=%d escapeChar=%v incrementing=%v", n, esc, incr)
+			pe := &pathExec{fn: fn, maxStep: 3000}
+			writers := map[ssa.Value][]string{} // keyed by the resolved receiver
+			strs := map[ssa.Value][]string{}
+			bad := ""
+			var tokOf func(v ssa.Value) ([]string, bool)
+			tokOf = func(v ssa.Value) ([]string, bool) {
+				v = pe.resolve(v)
+				if ts, ok := strs[v]; ok {
+					return ts, true
+				}
+				if sc, ok := constString(v); ok {
+					var out []string
+					for i := 0; i < len(sc); i++ {
+						out = append(out, sc[i:i+1])
+					}
+					return out, true
+				}
+				if fieldNameOfLoad(v) == "Table" {
+					return []string{"T"}, true
+				}
+				if f, ok := v.(*ssa.Field); ok {
+					if st, ok := f.X.Type().Underlying().(*types.Struct); ok && st.Field(f.Field).Name() == "Table" {
+						return []string{"T"}, true
+					}
+				}
+				// element of the column names
+				if ld, ok := v.(*ssa.UnOp); ok && ld.Op == token.MUL {
+					if ia, ok := ld.X.(*ssa.IndexAddr); ok && pe.resolve(ia.X) == ssa.Value(namesP) {
+						if j, ok := pe.intOf(ia.Index, 0); ok {
+							return []string{fmt.Sprintf("N%d", j)}, true
 						}
 					}
 				}
+				return nil, false
+			}
+			isEscChar := func(v ssa.Value) bool {
+				v = pe.resolve(v)
+				if fieldNameOfLoad(v) == "EscapeChar" {
+					return true
+				}
+				if f, ok := v.(*ssa.Field); ok {
+					if st, ok := f.X.Type().Underlying().(*types.Struct); ok && st.Field(f.Field).Name() == "EscapeChar" {
+						return true
+					}
+				}
+				return false
+			}
+			isIncr := func(v ssa.Value) bool {
+				v = pe.resolve(v)
+				if fieldNameOfLoad(v) == "Incrementing" {
+					return true
+				}
+				if f, ok := v.(*ssa.Field); ok {
+					if st, ok := f.X.Type().Underlying().(*types.Struct); ok && st.Field(f.Field).Name() == "Incrementing" {
+						return true
+					}
+				}
+				return false
+			}
+			pe.lenOf = func(call *ssa.Call) (int64, bool) {
+				if pe.resolve(call.Call.Args[0]) == ssa.Value(namesP) {
+					return int64(n), true
+				}
+				if ts, ok := tokOf(call.Call.Args[0]); ok {
+					return int64(len(ts)), true
+				}
+				return 0, false
+			}
+			atom := func(x ssa.Value) (bool, bool) {
+				if isIncr(x) {
+					return incr, true
+				}
+				b, ok := x.(*ssa.BinOp)
+				if !ok {
+					return false, false
+				}
+				if isEscChar(b.X) {
+					if k, isK := constInt(b.Y); isK && k == 0 {
+						switch b.Op {
+						case token.EQL:
+							return !esc, true
+						case token.NEQ:
+							return esc, true
+						}
+					}
+				}
+				if isIntegerType(b.X.Type()) {
+					x1, ok1 := pe.intOf(b.X, 0)
+					y1, ok2 := pe.intOf(b.Y, 0)
+					if ok1 && ok2 {
+						switch b.Op {
+						case token.LSS:
+							return x1 < y1, true
+						case token.LEQ:
+							return x1 <= y1, true
+						case token.GTR:
+							return x1 > y1, true
+						case token.GEQ:
+							return x1 >= y1, true
+						case token.EQL:
+							return x1 == y1, true
+						case token.NEQ:
+							return x1 != y1, true
+						}
+					}
+				}
+				return false, false
+			}
+			pe.oracle = func(pe *pathExec, cond ssa.Value) (bool, bool) { return pe.evalBool(cond, atom) }
+			pe.inline = func(callee *ssa.Function) bool { return callee.Pkg == fn.Pkg }
+			recvKey := func(v ssa.Value) ssa.Value { return pe.resolve(v) }
+			var result []string
+			haveResult := false
+			pe.onInstr = func(pe *pathExec, in ssa.Instruction) {
+				switch t := in.(type) {
+				case *ssa.Phi:
+					if ts, ok := tokOf(pe.phi[t]); ok {
+						strs[t] = append([]string(nil), ts...)
+					}
+				case *ssa.BinOp:
+					if bt, ok := t.Type().Underlying().(*types.Basic); ok && bt.Info()&types.IsString != 0 && t.Op == token.ADD {
+						a, ok1 := tokOf(t.X)
+						b, ok2 := tokOf(t.Y)
+						if ok1 && ok2 {
+							strs[t] = append(append([]string(nil), a...), b...)
+						} else {
+							delete(strs, t)
+						}
+					}
+				case *ssa.Call:
+					o := calleeObj(t)
+					if o == nil {
+						return
+					}
+					name := o.Name()
+					pkg := ""
+					if o.Pkg() != nil {
+						pkg = o.Pkg().Path()
+					}
+					switch {
+					case pkg == "strconv" && name == "Itoa":
+						if k, ok := pe.intOf(t.Call.Args[0], 0); ok {
+							strs[t], _ = tokOf(ssa.Value(nil))
+							strs[t] = strings.Split(fmt.Sprint(k), "")
+						}
+					case pkg == "fmt" && name == "Sprintf":
+						f, ok := constString(t.Call.Args[0])
+						if !ok {
+							return
+						}
+						// one %d verb with one int argument
+						var arg ssa.Value
+						if sl, ok := t.Call.Args[1].(*ssa.Slice); ok {
+							if al, ok := sl.X.(*ssa.Alloc); ok {
+								for _, r := range *al.Referrers() {
+									if ia, ok := r.(*ssa.IndexAddr); ok {
+										for _, r2 := range *ia.Referrers() {
+											if st, ok := r2.(*ssa.Store); ok {
+												arg = st.Val
+											}
+										}
+									}
+								}
+							}
+						}
+						if mi, ok := arg.(*ssa.MakeInterface); ok {
+							arg = mi.X
+						}
+						if strings.Count(f, "%") == 1 && strings.Contains(f, "%d") && arg != nil {
+							if k, ok := pe.intOf(arg, 0); ok {
+								strs[t] = strings.Split(strings.Replace(f, "%d", fmt.Sprint(k), 1), "")
+							}
+						}
+					case (pkg == "bytes" || pkg == "strings") && (name == "WriteString" || name == "WriteRune" || name == "WriteByte"):
+						rk := recvKey(t.Call.Args[0])
+						switch name {
+						case "WriteString":
+							ts, ok := tokOf(t.Call.Args[1])
+							if !ok {
+								bad = "a string written at " + p.instrPos(t) + " is not built from constants, the table name, a column name or a number"
+								return
+							}
+							writers[rk] = append(writers[rk], ts...)
+						default:
+							if isEscChar(t.Call.Args[1]) {
+								writers[rk] = append(writers[rk], "Q")
+							} else if k, isK := constInt(pe.resolve(t.Call.Args[1])); isK {
+								writers[rk] = append(writers[rk], string(rune(k)))
+							} else {
+								bad = "a character written at " + p.instrPos(t) + " is neither a constant nor the escape character"
+							}
+						}
+					case (pkg == "bytes" || pkg == "strings") && name == "String":
+						rk := recvKey(t.Call.Args[0])
+						strs[t] = append([]string(nil), writers[rk]...)
+					}
+				case *ssa.Return:
+					if t.Parent() == fn && len(t.Results) == 1 {
+						result, haveResult = tokOf(t.Results[0])
+					}
+				}
+			}
+			end, why := pe.run()
+			if _, ok := end.(*ssa.Return); !ok {
+				c.undecided(key, p.pos(fn.Pos()), "cannot evaluate: "+why)
+				continue
+			}
+			if bad != "" {
+				c.undecided(key, p.pos(fn.Pos()), bad)
+				continue
+			}
+			if !haveResult {
+				c.undecided(key, p.pos(fn.Pos()), "the returned statement is not a string the evaluation tracks")
+				continue
+			}
+			q := ""
+			if esc {
+				q = "Q"
+			}
+			want := "INSERT INTO " + q + "T" + q + " ("
+			for j := 0; j < n; j++ {
+				if j > 0 {
+					want += ","
+				}
+				want += fmt.Sprintf("%sN%d%s", q, j, q)
+			}
+			want += ") VALUES ("
+			for j := 0; j < n; j++ {
+				if j > 0 {
+					want += ","
+				}
+				if incr {
+					want += fmt.Sprintf("$%d", j+1)
+				} else {
+					want += "?"
+				}
+			}
+			want += ");"
+			got := strings.Join(result, "")
+			if got == want {
+				c.ok(key, p.pos(fn.Pos()), got)
+			} else {
+				c.bad(key, p.pos(fn.Pos()), fmt.Sprintf("builds %q where %q is required (T table, Nj column j, Q escape character)", got, want))
 			}
 		}
-		if mi, ok := val.(*ssa.MakeInterface); ok {
-			val = mi.X
-		}
-		add, ok := val.(*ssa.BinOp)
-		if !ok || add.Op != token.ADD {
-			c.bad(key, p.instrPos(call), "the placeholder number is not `loop key + 1` ("+describe(val)+")")
-			return
-		}
-		k, isK := constInt(add.Y)
-		isKey := false
-		for _, li := range loopsOf(fn) {
-			if li.key != nil && li.key == add.X && inLoop(li, call.Block()) {
-				isKey = true
-			}
-		}
-		if fmtStr != "$%d" {
-			c.bad(key, p.instrPos(call), fmt.Sprintf("the placeholder format is %q, not \"$%%d\"", fmtStr))
-		} else if isK && k == 1 && isKey {
-			c.ok(key, p.instrPos(call), "$ followed by the zero-based column number plus 1")
-		} else {
-			c.bad(key, p.instrPos(call), fmt.Sprintf("the placeholder number is %s, not the zero-based column number plus 1: placeholders must run $1..$n", describe(val)))
-		}
-	})
-	if n == 0 {
-		c.undecided(fname(fn)+"|placeholder number", p.pos(fn.Pos()), "no numbered placeholder is formatted")
 	}
 }
 
@@ -2063,8 +2261,8 @@ func runR109(c *Ctx) {
 // ---- R111: which column names are refused as quoted ----
 
 func init() {
-	register(&Rule{ID: "R111", Name: "QUOTED-NAME", Floor: 30,
-		Text: "strings.isQuoted is evaluated (E5) over all 32 valuations of (len(s) > 2, s starts with ', s ends with ', s starts with \", s ends with \"): it is true exactly for names longer than two bytes that carry the same quote character at both ends. CheckName refuses exactly those (plus empty names and a leading $), so a legal name such as `ab'` or `''` is never rejected and a quoted one never accepted",
+	register(&Rule{ID: "R111", Name: "QUOTED-NAME", Floor: 18,
+		Text: "strings.isQuoted is evaluated (E5) over the 20 worlds of (len(s) > 2, the first byte is ' / \" / something else, the last byte likewise, two other bytes equal or not; prefix/suffix tests and direct byte comparisons are both understood): it is true exactly for names longer than two bytes that carry the same quote character at both ends. CheckName refuses exactly those (plus empty names and a leading $), so a legal name such as `ab'` or `''` is never rejected and a quoted one never accepted",
 		Run:  runR111})
 	register(&Rule{ID: "R113", Name: "LIST-NORMALISED", Floor: 2,
 		Text: "in the column packages, wherever a comparatee is matched against the type []string (the value list of `in`), the value switched on is the result of strings.InterfaceSliceToStringSlice applied to the comparatee: a list written as []interface{}{\"a\", \"b\"} (the form JSON-decoded filters arrive in) is accepted by string and enum columns alike",
@@ -2078,68 +2276,123 @@ func runR111(c *Ctx) {
 		c.undecided("internal/strings.isQuoted", "-", "not found")
 		return
 	}
-	for w := 0; w < 32; w++ {
-		long, ps, ss, pd, sd := w&1 != 0, w&2 != 0, w&4 != 0, w&8 != 0, w&16 != 0
-		key := fmt.Sprintf("internal/strings.isQuoted|world long=%v sqPrefix=%v sqSuffix=%v dqPrefix=%v dqSuffix=%v", long, ps, ss, pd, sd)
-		pe := &pathExec{fn: fn}
-		odd := ""
-		atom := func(x ssa.Value) (bool, bool) {
-			switch t := x.(type) {
-			case *ssa.BinOp:
-				if call, ok := t.X.(*ssa.Call); ok && builtinName(call) == "len" {
-					k, isK := constInt(t.Y)
-					switch {
-					case isK && k == 2 && t.Op == token.GTR, isK && k == 3 && t.Op == token.GEQ:
-						return long, true
-					case isK && k == 2 && t.Op == token.LEQ, isK && k == 3 && t.Op == token.LSS:
-						return !long, true
+	sP := fn.Params[0]
+	classes := []string{"'", `"`, "x"} // first / last byte: single quote, double quote, anything else
+	for _, long := range []bool{false, true} {
+		for _, F := range classes {
+			for _, L := range classes {
+				for _, eqOther := range []bool{false, true} {
+					if !(F == "x" && L == "x") && eqOther {
+						continue
 					}
-					odd = fmt.Sprintf("the length is tested as `len(s) %s %s`, not `len(s) > 2`", t.Op, describe(t.Y))
-				}
-			case *ssa.Call:
-				o := calleeObj(t)
-				isP, isS := isFuncNamed(o, "strings", "", "HasPrefix"), isFuncNamed(o, "strings", "", "HasSuffix")
-				if isP || isS {
-					q, ok := constString(t.Call.Args[1])
-					if !ok {
+					key := fmt.Sprintf("internal/strings.isQuoted|world long=%v first=%s last=%s otherBytesEqual=%v", long, F, L, eqOther)
+					pe := &pathExec{fn: fn}
+					odd := ""
+					// which end a byte value was read from
+					endOf := func(v ssa.Value) string {
+						v = pe.resolve(v)
+						idx, ok := v.(*ssa.Index)
+						if !ok || pe.resolve(idx.X) != ssa.Value(sP) {
+							return ""
+						}
+						if k, isK := constInt(idx.Index); isK && k == 0 {
+							return "F"
+						}
+						if sub, ok := idx.Index.(*ssa.BinOp); ok && sub.Op == token.SUB {
+							if k, isK := constInt(sub.Y); isK && k == 1 {
+								if lc, ok := sub.X.(*ssa.Call); ok && builtinName(lc) == "len" {
+									return "L"
+								}
+							}
+						}
+						return ""
+					}
+					classOf := func(end string) string {
+						if end == "F" {
+							return F
+						}
+						return L
+					}
+					atom := func(x ssa.Value) (bool, bool) {
+						switch t := x.(type) {
+						case *ssa.BinOp:
+							if call, ok := t.X.(*ssa.Call); ok && builtinName(call) == "len" {
+								k, isK := constInt(t.Y)
+								switch {
+								case isK && k == 2 && t.Op == token.GTR, isK && k == 3 && t.Op == token.GEQ:
+									return long, true
+								case isK && k == 2 && t.Op == token.LEQ, isK && k == 3 && t.Op == token.LSS:
+									return !long, true
+								}
+								odd = fmt.Sprintf("the length is tested as `len(s) %s %s`, not `len(s) > 2`", t.Op, describe(t.Y))
+								return false, false
+							}
+							if t.Op != token.EQL && t.Op != token.NEQ {
+								return false, false
+							}
+							ex, ey := endOf(t.X), endOf(t.Y)
+							var eq, known bool
+							switch {
+							case ex != "" && ey != "":
+								cx, cy := classOf(ex), classOf(ey)
+								if cx == "x" && cy == "x" {
+									eq, known = eqOther || ex == ey, true
+								} else {
+									eq, known = cx == cy, true
+								}
+							case ex != "":
+								if k, isK := constInt(t.Y); isK {
+									eq, known = classOf(ex) == string(rune(k)), true
+								}
+							case ey != "":
+								if k, isK := constInt(t.X); isK {
+									eq, known = classOf(ey) == string(rune(k)), true
+								}
+							}
+							if known {
+								return eq == (t.Op == token.EQL), true
+							}
+						case *ssa.Call:
+							o := calleeObj(t)
+							isP, isS := isFuncNamed(o, "strings", "", "HasPrefix"), isFuncNamed(o, "strings", "", "HasSuffix")
+							if isP || isS {
+								q, ok := constString(t.Call.Args[1])
+								if !ok || len(q) != 1 {
+									return false, false
+								}
+								if isP {
+									return F == q, true
+								}
+								return L == q, true
+							}
+						}
 						return false, false
 					}
+					pe.oracle = func(pe *pathExec, cond ssa.Value) (bool, bool) { return pe.evalBool(cond, atom) }
+					end, why := pe.run()
+					ret, ok := end.(*ssa.Return)
+					if !ok {
+						if odd != "" {
+							c.bad(key, p.pos(fn.Pos()), odd)
+						} else {
+							c.undecided(key, p.pos(fn.Pos()), "cannot evaluate: "+why)
+						}
+						continue
+					}
+					got, known := pe.evalBool(ret.Results[0], atom)
+					want := long && F == L && F != "x"
 					switch {
-					case q == "'" && isP:
-						return ps, true
-					case q == "'" && isS:
-						return ss, true
-					case q == `"` && isP:
-						return pd, true
-					case q == `"` && isS:
-						return sd, true
+					case odd != "":
+						c.bad(key, p.instrPos(ret), odd)
+					case !known:
+						c.undecided(key, p.instrPos(ret), "result not decided by the world")
+					case got == want:
+						c.okTrivial(key, p.instrPos(ret), fmt.Sprintf("returns %v", got))
+					default:
+						c.bad(key, p.instrPos(ret), fmt.Sprintf("returns %v; a name is quoted exactly when it is longer than two bytes and starts and ends with the same quote character", got))
 					}
 				}
 			}
-			return false, false
-		}
-		pe.oracle = func(pe *pathExec, cond ssa.Value) (bool, bool) { return pe.evalBool(cond, atom) }
-		end, why := pe.run()
-		ret, ok := end.(*ssa.Return)
-		if !ok {
-			if odd != "" {
-				c.bad(key, p.pos(fn.Pos()), odd)
-			} else {
-				c.undecided(key, p.pos(fn.Pos()), "cannot evaluate: "+why)
-			}
-			continue
-		}
-		got, known := pe.evalBool(ret.Results[0], atom)
-		want := long && (ps && ss || pd && sd)
-		switch {
-		case odd != "":
-			c.bad(key, p.instrPos(ret), odd)
-		case !known:
-			c.undecided(key, p.instrPos(ret), "result not decided by the world")
-		case got == want:
-			c.okTrivial(key, p.instrPos(ret), fmt.Sprintf("returns %v", got))
-		default:
-			c.bad(key, p.instrPos(ret), fmt.Sprintf("returns %v; a name is quoted exactly when it is longer than two bytes and starts and ends with the same quote character", got))
 		}
 	}
 }
